@@ -190,3 +190,32 @@ def add_code_whitespace(R: Draw, rs, node: dict) -> dict:  # noqa: ANN001
 
 
 _ = P
+
+
+def lead_spaces(R: Draw, rs, node: dict) -> dict:  # noqa: ANN001
+    """In some textblocks make every marked run after the first carry its own LEADING space
+    ("one", em(" two"), strong(" three")) - the shape in which each boundary space belongs to the run on its right."""
+    if rs.textblock.get(node["t"]) and not rs.nodes[node["t"]].get("code"):
+        kids = node["c"]
+        if len([c for c in kids if c["t"] == "text"]) >= 2 and R.bool(0.5):
+            out = []
+            for i, c in enumerate(kids):
+                if c["t"] == "text" and i > 0 and kids[i - 1]["t"] == "text":
+                    x = c["x"].strip(" ")
+                    if x:
+                        c = {**c, "x": " " + x}
+                elif c["t"] == "text":
+                    x = c["x"].rstrip(" ")
+                    if x:
+                        c = {**c, "x": x}
+                out.append(c)
+            # the previous run must not end with a space (that would be a double space)
+            fixed = []
+            for i, c in enumerate(out):
+                if c["t"] == "text" and i + 1 < len(out) and out[i + 1]["t"] == "text" and out[i + 1]["x"].startswith(" "):
+                    x = c["x"].rstrip(" ")
+                    c = {**c, "x": x} if x else c
+                fixed.append(c)
+            return {**node, "c": fixed}
+        return node
+    return {**node, "c": [lead_spaces(R, rs, c) for c in node["c"]]}
